@@ -107,6 +107,12 @@ def reset_paths(ctx):
              for c in calls)
     ctx.check(ok, f'{rc.qualname}:switches logging off', rc.node, 'set_all_log_levels(conn, "off")',
               'reset_connection does not switch remote logging off for the connection', rc)
+    cfgrc = CFG(rc.node, m, rc.module)
+    offs = [i for c in calls if len(c.args) == 2 and src(c.args[0]) == 'conn' for i in cfgrc.node_of(c)]
+    ctx.check(bool(offs) and cfgrc.all_paths_pass([cfgrc.entry], [cfgrc.exit], offs, exc=False), f'{rc.qualname}:switches logging off on every path', rc.node,
+              'no normal path around set_all_log_levels(conn, "off")',
+              'the switch-off is conditional (e.g. on a remembered "this connection uses logging" flag): book-keeping that can get out of step with the per-module '
+              'subscriptions (`logging mod debug; logging other off`) leaves subscriptions alive after *IDN? / disconnect', rc)
     sal = m.method(roles.DISPATCHER, 'set_all_log_levels', inherited=False)
     ctx.analysed(sal)
     loops = [n for n in body_walk(sal.node) if isinstance(n, ast.For) and 'modules' in src(n.iter)]
@@ -207,7 +213,15 @@ def retention_keeps_newest(ctx):
             if ok:
                 ctx.ok(f'{f.qualname}:files removed', c, 'all but the max_days newest files are removed', f)
             else:
-                ctx.undecided(f'{f.qualname}:files removed', c, f'oldest-prefix keeps `{count}` files (not self.max_days)', f)
+                cexpr = sl.upper.operand if isinstance(sl.upper, ast.UnaryOp) else None
+                can_be_zero = isinstance(cexpr, ast.BinOp) and isinstance(cexpr.op, ast.Sub)
+                pos_guard = any(isinstance(a, ast.If) and any(op in ('<', '<=') and (count in (l, r) or (isinstance(cexpr, ast.BinOp) and src(cexpr.left) in (l, r)))
+                                                               for l, op, r in compare_ops(a.test)) for a in ancestors(c))
+                if can_be_zero and not pos_guard:
+                    ctx.bad(f'{f.qualname}:files removed', c, f'the files to remove are `{src(it)}`: the count `{count}` can be 0 (retention of one day) and `[:-0]` is the EMPTY '
+                            'prefix, not the whole list - nothing is ever removed although only the file being written is to be kept', f)
+                else:
+                    ctx.undecided(f'{f.qualname}:files removed', c, f'oldest-prefix keeps `{count}` files (not self.max_days)', f)
         elif kind == 'suffix':
             ctx.bad(f'{f.qualname}:files removed', c,
                     f'`{src(it)}` of the ascending file list is a newest-suffix: the newest files (including the one '
